@@ -4,6 +4,7 @@ import decimal
 import enum
 import json
 import sys
+from random import random  # noqa: F401  a public name that shadows a module the test file imports itself
 
 
 class StubError(Exception):
@@ -67,6 +68,22 @@ def text(*a):
 
 def lst(*a):
     return [1, 2]
+
+
+def testify(x):
+    """pytest's default rule is the bare prefix `test`: collected if imported by name."""
+    return x
+
+
+def tests_needed(n=0):
+    return n
+
+
+class Tester:
+    """Class prefix `Test` without separator: collected by pytest as well."""
+
+    def test_it(self, z):
+        return z
 
 
 def test_probe(x):
